@@ -41,6 +41,45 @@ CLAUSES = {
 }
 
 
+ENUM = ('(declare-datatype Color ((red) (green) (blue) (cyan) (black)))\n'
+        '(declare-fun p (Color) Bool)\n(declare-const c Color)\n'
+        '(declare-const d Color)\n(assert (p c))\n'
+        '(assert (or (p d) (= c d)))\n(check-sat)\n')
+
+
+APP = {'mode': 'app', 'head': 'p',
+       'markers': ['declare-datatype', 'red', 'green', 'blue', 'cyan',
+                   'black']}
+
+
+def theory_configs(r, tier):
+    """Inputs over every theory (lib/seeds.py) under permissive commands: the
+    candidates of the theory mutators compete, so an order of proposals that
+    depends on hashing shows in the accepted sequence."""
+    import seeds
+    out = []
+    texts = [('enum', ENUM)] + seeds.all_seeds()
+    if tier == 'quick':
+        texts = texts[:1] + r.sample(texts[1:], 7)
+    for k, (name, text) in enumerate(texts):
+        atoms = corpus.atoms_of(text)
+        keep = [t for t in ('p', 'check-sat') if t in atoms][:1] or atoms[:1]
+        st = ('ddmin', 'hierarchical', 'hybrid')[k % 3]
+        out.append((text, {'mode': 'contains', 'markers': keep},
+                    ['--strategy', st, '-j', '1'],
+                    {'strategy': st, 'jobs': 1, 'n': 'T%d' % k}))
+        if name == 'enum':
+            # the application of p to one atom must stay: the constants of
+            # the datatype compete for the argument position
+            out[-1][1].clear()
+            out[-1][1].update(dict(APP))
+            for st2 in ('hierarchical', 'hybrid'):
+                out.append((text, dict(APP),
+                            ['--strategy', st2, '-j', '1'],
+                            {'strategy': st2, 'jobs': 1, 'n': 'T0' + st2}))
+    return out
+
+
 def main():
     a = common.std_args()
     rep = common.Report('C18', 'model_checking', a.tier)
@@ -63,6 +102,7 @@ def main():
         S.model_check(rep, MODELS[a.tier])
         base = corpus.configs(r, NCONF[a.tier], jobs=(1, ),
                               outmodes=((), ('--pretty-print', )))
+        base += theory_configs(r, a.tier)
     cfgs = []
     for text, spec, opts, meta in base:
         for k, hs in enumerate(SEEDS):
